@@ -181,6 +181,7 @@ impl<T> Executor<T> {
 //@ loop 1
         invariant_except_break
             !clear_readiness,
+            dequeued.len() == lit.index@,
         invariant
             *tasks_cell is Some,
             may_recv(&state.incoming),
@@ -190,9 +191,13 @@ impl<T> Executor<T> {
             // every finished result taken out of the task table has been handed to the callback -- nothing is dequeued or
             // removed and then dropped
             forall|i: int| 0 <= i < dequeued.len() ==> crate::async_task::w_ran(#[trigger] dequeued[i]),
+            dequeued.len() <= lit.index@,
             forall|i: int| 0 <= i < taken.len() ==> w_result_delivered(#[trigger] taken[i]),
         ensures
             clear_readiness ==> (w_empty(&state.incoming) || w_disconnected(&state.incoming)),
+            // ... and it stays false ONLY if the whole batch of 1024 was used up (otherwise the executor would re-arm itself for
+            // ever on an empty queue: a busy loop)
+            !clear_readiness ==> dequeued.len() == 1024,
 //@ tail
         clear_readiness
 //@ endslice
